@@ -59,6 +59,8 @@ type FnCtx struct {
 	constArrs      map[string]string
 	loopUnkPkgs    []*types.Package
 	loopUnkFuncArg bool
+	loopCellAllocs  map[string][]*ssa.Alloc
+	loopCellGeneric map[string]bool
 	entryFrees map[*ssa.FreeVar]Val
 }
 
@@ -135,6 +137,7 @@ type State struct {
 	havocs  []havocRec
 	noTypeInv bool
 	inGlobalInv bool
+	selfFn    Val
 }
 
 func (s *State) clone() *State {
